@@ -143,7 +143,27 @@ func CheckCanaryNodes(pre, post *State, reconcileErr error, ns, name string) (is
 		return issues, true
 	}
 	isPercent := cs.Replicas.Type == 1
-	if len(L) != want && len(L) != wantAlt {
+	if len(L) > want {
+		// safety clause, strict: "never exceeds it through the controller's own choice" - the percentage is resolved against
+		// the nodes the ExtendedDaemonSet targets, not against a status counter that may double-count during a canary
+		newPicks := 0
+		for _, n := range L {
+			if !inPrev[n] {
+				newPicks++
+			}
+		}
+		if newPicks > 0 && len(prev) >= want {
+			if isPercent && len(L) <= wantAlt && int(e0.Status.Desired) > base {
+				// the controller followed its own resolution against status.desired, which at that moment counted the canary
+				// nodes twice (canary replica set synced, active one not yet): a call site of its own, kept apart from any
+				// other way of over-selecting
+				add("C15/count-base: a percentage of canary replicas was resolved against a status.desired that counts the canary nodes twice, and the list grew beyond the percentage of the targeted nodes",
+					fmt.Sprintf("nodes=%v (previous %v) want %d of %d targeted; status.desired read: %d", L, prev, want, base, e0.Status.Desired))
+			} else {
+				add("C15/count: the controller selected more canary nodes than requested", fmt.Sprintf("nodes=%v (previous %v) want %d of %d targeted (status.desired read: %d)", L, prev, want, base, e0.Status.Desired))
+			}
+		}
+	} else if len(L) != want && len(L) != wantAlt {
 		kind := "number"
 		if isPercent {
 			kind = "percentage"
